@@ -241,6 +241,36 @@ def part_hostile(ctx, shard):
     MON["codes"] = 0
 
 
+def part_names(ctx, shard):
+    """every builtin / sympy / math name, bare, called and multiplied: must be rewritten to a Symbol."""
+    install_monitor()
+    for name in shard:
+        for s in (name, f"{name}(m)", f"{name}*m", f"m.{name}", f"{name}.{name}", f"{name}(2)*m"):
+            ctx.count("evaluations")
+            res = try_unit(s)
+            judge_total(ctx, s, res, "names")
+            ctx.outcome((res[0],))
+            ctx.decided(s)
+            if res[0] == "ok" and name not in ALLOWED_NAMES and s != name and "(" in s:
+                # a call that succeeds means the name resolved to something callable
+                ctx.violation("C20|vocabulary|what=call|mode=evaluated-outside-vocabulary", {"part": "names", "string": s}, "UnitParseError", "accepted")
+    ctx.count("transitions", MON["codes"])
+    MON["codes"] = 0
+    world.D._unit_object_cache.clear()
+
+
+def vocabulary_probe_names():
+    import builtins
+    import keyword
+    import math
+
+    import sympy
+
+    names = set(dir(builtins)) | set(dir(sympy)) | set(dir(math)) | set(keyword.kwlist)
+    names |= {"os", "sys", "np", "numpy", "unyt", "sympy", "__import__", "__builtins__", "__class__", "__globals__", "self"}
+    return sorted(n for n in names if n.isidentifier())
+
+
 # ---- (b) print round trip ----------------------------------------------------------------------------------------
 RT_ALPHABET = ["m", "cm", "km", "g", "kg", "s", "hr", "K", "N", "erg", "J", "mile", "Msun", "statC", "G", "T", "A", "rad",
                "degree", "arcsec", "µm", "Ω", "Å", "eV", "keV", "Hz", "Pa", "W", "V", "C", "mol", "cd", "lm", "sr", "dB", "Np",
@@ -397,6 +427,8 @@ def run(ctx):
     cor = corpus()
     harness.pmap(ctx, part_edits, [cor[i : i + 4] for i in range(0, len(cor), 4)])
     part_hostile(ctx, HOSTILE)
+    probe = vocabulary_probe_names()
+    harness.pmap(ctx, part_names, [probe[i : i + 100] for i in range(0, len(probe), 100)])
     harness.pmap(ctx, part_roundtrip, [[nme] for nme in RT_ALPHABET])
     pairs = list(itertools.product(VARIANT_ATOMS, VARIANT_ATOMS))
     harness.pmap(ctx, part_variants, [pairs[i : i + 4] for i in range(0, len(pairs), 4)])
@@ -421,7 +453,7 @@ def replay(case):
     ctx = harness.Ctx(PROPERTY, "quick", 0)
     install_monitor()
     part = case["part"]
-    if part in ("tokens", "edits", "hostile", "bytes"):
+    if part in ("tokens", "edits", "hostile", "bytes", "names"):
         s = case["string"]
         if part in ("hostile", "bytes") and s.startswith("b'"):
             s = ast.literal_eval(s)
